@@ -41,13 +41,18 @@ MODELS (group 'guderley')
   GudEexp      eexp.eexp(nnn, gamm): the validation front end and bracket of the similarity
                exponent (brentq = atom `alpha`); C20 restrictions of the Guderley solver live here.
   GudFe        eexp.fe(t, y) with the module globals a, n, g symbolic (Chisnell Eq. 3.1).
+  GudRun       Guderley._run with guderley_1d a recorder: keyword wiring and field names.
+  GudInit      the constructor (validates nothing).
   RmtvRun      timmes.rmtv_1d(rpos, …): derived constants, ambient / heated / shocked branches,
                dimensionalisation and unit conversion of the atoms.
-  RmtvJump     the same call, stopped at the second solve_ivp: the coded isothermal-shock jump
-               (Kamm 2000 Eq. 15) applied to the atoms (U2, H2, W2, T2), and the start values of the
-               first integration.
+  RmtvStart    the same call stopped at the first solve_ivp: heat-front start values (Kamm Eqs. 11, 13).
+  RmtvJump     rmtv_1d on concrete arguments of the shocked branch, stopped at the second solve_ivp:
+               the coded isothermal-shock jump (Kamm 2000 Eq. 15) of the atoms (U2, H2, W2, T2).
   RmtvDerivs   timmes.derivs(t, y) with the module globals symbolic.
   RmtvFun      timmes.fun(y) and timmes.rmtvfun(u) (quad = atom `ans`).
+  RmtvWire     Rmtv._run with `rmtv` a recorder; RmtvLoop: timmes.rmtv with `rmtv_1d` a recorder
+               (argument hand-over and wiring of the results under the public field names).
+  RmtvInit     the constructor (validates nothing).
 
 GUD_FUNCS / RMTV_FUNCS list, for the ties in harness/o_guderley.py, the generated function
 models of this file."""
